@@ -169,6 +169,71 @@ _bic_iso9362_re ='''),
             self.__dict__["_numeric"] = None
             self.__dict__["_numeric"] = numerify(self.bban + self[:4])
         return self.__dict__["_numeric"]''')]),
+    dict(id="p14_condition_single_flight_init", prop="C14", expect="pass", patches=[
+        (BIC, '''_bic_iso9362_re =''', '''import threading
+
+_cond = threading.Condition()
+_state = {"building": False, "ready": False, "table": None}
+
+
+def _ensure_table() -> None:
+    with _cond:
+        while _state["building"]:
+            _cond.wait()
+        if _state["ready"]:
+            return
+        _state["building"] = True
+    table = {}
+    for i in range(40):
+        table[i] = str(i)
+    with _cond:
+        _state["table"] = table
+        _state["building"] = False
+        _state["ready"] = True
+        _cond.notify_all()
+
+
+_bic_iso9362_re ='''),
+        (BIC, '''        try:
+            index = registry.get("bank_code")
+            assert isinstance(index, dict)
+            banks = sorted(''', '''        _ensure_table()
+        try:
+            index = registry.get("bank_code")
+            assert isinstance(index, dict)
+            banks = sorted(''')], note="correct Condition-based single-flight initialisation: waiters are SimLocks, must neither hang nor alarm"),
+    dict(id="m14_condition_missing_notify", prop="C14", expect="flag", patches=[
+        (BIC, '''_bic_iso9362_re =''', '''import threading
+
+_cond = threading.Condition()
+_state = {"building": False, "ready": False, "table": None}
+
+
+def _ensure_table() -> None:
+    with _cond:
+        while _state["building"]:
+            _cond.wait()
+        if _state["ready"]:
+            return
+        _state["building"] = True
+    table = {}
+    for i in range(40):
+        table[i] = str(i)
+    with _cond:
+        _state["table"] = table
+        _state["building"] = False
+        _state["ready"] = True
+
+
+_bic_iso9362_re ='''),
+        (BIC, '''        try:
+            index = registry.get("bank_code")
+            assert isinstance(index, dict)
+            banks = sorted(''', '''        _ensure_table()
+        try:
+            index = registry.get("bank_code")
+            assert isinstance(index, dict)
+            banks = sorted(''')], note="waiters are never notified: lost wake-up, reported as deadlock"),
     # ---------------------------------------------------------------- C15
     dict(id="m15_memo_ignores_flags", prop="C15", expect="flag", patches=[
         (IBAN, '''_spec_to_re: dict[str, str]''', '''_validated: set = set()
